@@ -10,7 +10,7 @@ from ..oracle import ambient_plugins
 from ..oracle import caching_flags_off
 from ..oracle import (ACCEPT, REJECT, EITHER, slack3, slack_tripped_int, validsig,
                       ed_verify, pubkey_of_seed, as_key_arg, PREFIXES, DECORATIONS, SUFFIXES,
-                      LOCK_FORMS, LIMITS, in_form, code_of, WRAPS, wrap_lock, malleate,
+                      LOCK_FORMS, LIMITS, in_form, code_of, WRAPS, wrap_lock, malleate, pick_bit,
                       ARG_STYLES, styled_flags, styled_sigfields, maybe_twice)
 
 PID = 'C14'
@@ -162,10 +162,10 @@ def gen_step(rng, cell, clocks, vname, at_us, thr, fault_free):
         field = a[5:]
         lo, hi = FIELD_RANGE[field]
         step['attack'] = {'kind': 'flip', 'cert': rng.below(ln), 'field': field,
-                          'bit': rng.below((hi - lo) * 8),
+                          'bit': pick_bit(rng, (hi - lo) * 8),
                           'malleate': field == 'sig' and rng.chance(1, 4)}
     elif a == 'flip_final_sig':
-        step['attack'] = {'kind': 'flip_final_sig', 'bit': rng.below(512),
+        step['attack'] = {'kind': 'flip_final_sig', 'bit': pick_bit(rng, 512),
                           'malleate': rng.chance(1, 4)}
     elif a == 'flip_marker' and lock == 'chain':
         step['attack'] = {'kind': 'flip_marker', 'link': rng.below(ln), 'bit': rng.below(8)}
